@@ -298,7 +298,7 @@ class Described(Stage):
     def gen(self, d, tier):
         from .. import histgen
         profile = dict(reuse=0.4, server_reuse=0.3, weights=dict(repeat=4, delete=8, bind=12, message=30, server_event=10, deep=2, sync=3, enum=8, title=3,
-                                                               retype=3, newer=14, nulls=8, arrays=6, kinds=8, freeform=6, midsession=6))
+                                                               retype=3, newer=14, nulls=8, arrays=6, kinds=8, freeform=6, midsession=6, foreign=7, long_line=4))
         specs = histgen.history(d, nconn=d.int(1, 2), nmsg=d.int(4, 30), profile=profile)
         return dict(dialect=d.choice(['new', 'new', 'old']), specs=specs)
 
@@ -321,6 +321,10 @@ class Described(Stage):
                 break
             if m.sent != sp['sent'] or m.obj.id != sp['id'] or m.name != sp['name']:
                 res.bad('described:head', '%r recorded as %s' % (line, str(m)))
+                break
+            if m.obj.type is not None and m.obj.type != sp['iface']:
+                # whatever the id is known as from earlier lines, the message on this line is on the interface the line says
+                res.bad('described:target-interface', '%r recorded as a message on %s: %s' % (line, m.obj.type, str(m)))
                 break
             if len(m.args) != len(sp['args']):
                 res.bad('described:argcount', '%r recorded with %d arguments: %s' % (line, len(m.args), str(m)))
